@@ -7,7 +7,7 @@ import sys
 import tempfile
 
 from .. import core, gens
-from .pipeline_common import PipelineSuite, gen_pil, run_pipeline, shipped_methods, pipeline_property_violation
+from .pipeline_common import PipelineSuite, gen_pil, family_pil, run_pipeline, shipped_methods, pipeline_property_violation
 
 SUITES = [PipelineSuite()]
 
@@ -29,13 +29,16 @@ def histories(r, n_hist):
     for h in range(n_hist):
         m = rng.choice(HISTORY_METHODS)
         mc = methods.parse_method_toml(m, False)
-        inputs = [gen_pil(rng) for _ in range(3)]
+        inputs = [family_pil(rng) if rng.random() < 0.3 else gen_pil(rng) for _ in range(3)]
+        from fractions import Fraction
+        # the caller's own dictionaries: the same OBJECT is handed to every call on that input (a fresh process parses a fresh one)
+        objs = [{e: (float(Fraction(sc)), list(ps)) for e, sc, ps in pil} for pil in inputs]
         seq = [rng.randrange(3) for _ in range(rng.randint(3, 6))]
         trace = []
         for k in seq:
             seed = 1
             ka = bool(k % 2)
-            reused = run_pipeline(mc, inputs[k], ka, gens.fr(0.01), gens.fr(0.01), seed)
+            reused = run_pipeline(mc, inputs[k], ka, gens.fr(0.01), gens.fr(0.01), seed, d=objs[k])
             fresh = run_pipeline(methods.parse_method_toml(m, False), inputs[k], ka, gens.fr(0.01), gens.fr(0.01), seed)
             n_calls += 1
             a = reused.get("ok", reused.get("raise"))
@@ -73,44 +76,6 @@ def write_inputs(d, pil, rng):
             f.write("\t".join([e, "_" + e + "_", ";".join(ps), ps[0], repr(float(Fraction(sc))), "100", "E1", "2", "1000",
                                "raw1", "1", str(i)]) + "\n")
     return ev
-
-
-def family_pil(rng):
-    """several families of isoforms that share peptides pairwise and have none of their own (rescue step: many small connected
-    components of unidentified groups, where set iteration order could leak into the result), plus unique targets and decoys"""
-    aas = "ACDEFGHILMNQSTVWY"
-    pil = []
-    nfam = rng.randint(3, 6)
-    for f in range(rng.randint(1, 3)):
-        # indistinguishable isoforms: three or four proteins with exactly the same two or three peptides (all of them are superset
-        # candidates of each other, tied on the peptide count: their order in the group must not depend on set iteration)
-        twins = [f"T{f}I{i}" for i in range(rng.choice([3, 3, 4]))]
-        for _ in range(rng.randint(2, 3)):
-            ps = list(twins)
-            rng.shuffle(ps)
-            pil.append(["".join(rng.choice(aas) for _ in range(7)) + "TK", gens.fr(rng.choice([0.001, 0.004])), ps])
-    for f in range(nfam):
-        iso = [f"F{f}I{i}" for i in range(rng.choice([2, 3, 3, 4]))]
-        rng.shuffle(iso)
-        pairs = [(a, b) for i, a in enumerate(iso) for b in iso[i + 1:]]
-        for j, (a, b) in enumerate(pairs):
-            ps = [a, b] if rng.random() < 0.5 else [b, a]
-            pil.append(["".join(rng.choice(aas) for _ in range(7)) + "K", gens.fr(rng.choice([0.001, 0.004, 0.02])), ps])
-        if len(iso) >= 3 and rng.random() < 0.5:
-            # indistinguishable isoforms: the same two or three peptides for all of them (ties on the peptide count among the
-            # superset candidates; their order must not depend on set iteration)
-            for _ in range(rng.randint(2, 3)):
-                ps = list(iso)
-                rng.shuffle(ps)
-                pil.append(["".join(rng.choice(aas) for _ in range(7)) + "R", gens.fr(rng.choice([0.001, 0.004])), ps])
-        if len(iso) >= 3 and rng.random() < 0.5:
-            pil.append(["".join(rng.choice(aas) for _ in range(7)) + "R", gens.fr(0.003), list(iso[:3])])
-    for u in range(rng.randint(2, 5)):
-        pil.append(["".join(rng.choice(aas) for _ in range(6)) + "UK", gens.fr(rng.choice([0.0005, 0.002, 0.03])), [f"U{u}"]])
-    for u in range(rng.randint(1, 3)):
-        pil.append(["".join(rng.choice(aas) for _ in range(6)) + "DK", gens.fr(rng.choice([0.01, 0.2])), [f"REV__U{u}"]])
-    rng.shuffle(pil)
-    return pil
 
 
 def cli_hash_seeds(r, n_inputs, seeds):
